@@ -212,3 +212,17 @@ impl<VM: VMBinding> ForwardingMetadata<VM> {
         self.calculated.load(Ordering::Relaxed)
     }
 }
+
+/// Forwarders for the external verification harnesses (see `crate::verif_hooks`). One call each, no logic.
+#[cfg(any(kani, mmtk_verif))]
+pub mod verif_hooks {
+    use super::*;
+    pub use super::ForwardingMetadata;
+    pub fn calculate_offset_vector<VM: VMBinding>(
+        fm: &ForwardingMetadata<VM>,
+        region_start: Address,
+        cursor: Address,
+    ) {
+        fm.calculate_offset_vector(CompressorRegion::from_aligned_address(region_start), cursor)
+    }
+}
